@@ -38,3 +38,26 @@ Proof.
     destruct (orb _ _); [reflexivity|]. destruct (negb _); [reflexivity|]. symmetry. apply vset_same.
 Qed.
 End Generic.
+
+(* make_epochs_per_sample (umap_.py, C07): one entry per weight, n_epochs / (n_epochs * (w / w_max)) where that is positive,
+   -1 elsewhere: the model's [epochs_per_sample] applied to every weight with the array's own maximum. *)
+From Coq Require Import Reals Lra.
+From UV Require Import M_sgd.
+Section Epochs.
+Local Open Scope R_scope.
+Ltac rn := change (T RNum) with R in *.
+
+Lemma vselect_map (P : R -> bool) (G K : R -> R) (u : R) (l : list R) :
+  vselect RNum (map P l) (map G l) (map K (repeat u (length l))) = map (fun w => if P w then G w else K u) l.
+Proof. induction l as [|w l IH]; [reflexivity|]. cbn [map length repeat vselect]. f_equal. exact IH. Qed.
+
+Theorem src_make_epochs_per_sample_eq (weights : list R) (n : Z) :
+  src_make_epochs_per_sample RNum weights n
+  = map (epochs_per_sample RNum (IZR n) (vmax_py RNum weights)) weights.
+Proof.
+  unfold src_make_epochs_per_sample. cbv zeta. unfold zlen. rewrite Nat2Z.id.
+  unfold vmaps_l, vmaps_r. rewrite !map_map. rewrite vselect_map.
+  apply map_ext. intros w. unfold epochs_per_sample, ngt. cbv zeta. cbn [ltb mul div of_Z zero one neg RNum]. rn.
+  destruct (Rltb 0 (IZR n * (w / vmax_py RNum weights))); [reflexivity|lra].
+Qed.
+End Epochs.
